@@ -798,18 +798,18 @@ impl ManifestTable {
         device: &mut Ctrl,
     ) -> ControlResult<impl Iterator<Item = ManifestEntry>> {
         let entry_num: u64 = self.read_register(device, (0, 8))?;
-        let first_entry_addr = register_address(self.manifest_address, 8)?;
-        // Make sure that all entries are addressable before handing out the iterator.
-        entry_num
-            .checked_mul(64)
-            .and_then(|table_size| first_entry_addr.checked_add(table_size))
-            .ok_or_else(|| {
-                ControlError::InvalidDevice(
-                    "manifest table doesn't fit into the address space".into(),
-                )
-            })?;
+        // The whole table, 8 bytes entry count followed by 64 bytes entries, must lie within the
+        // 64 bit address space. This also guarantees that the address calculation of each entry
+        // never overflows.
+        let table_end = u128::from(self.manifest_address) + 8 + u128::from(entry_num) * 64;
+        if table_end > 1_u128 << 64_i32 {
+            return Err(ControlError::InvalidDevice(
+                "manifest table doesn't fit into the address space".into(),
+            ));
+        }
 
-        Ok((0..entry_num).map(move |i| ManifestEntry::new(first_entry_addr + i * 64)))
+        let manifest_address = self.manifest_address;
+        Ok((0..entry_num).map(move |i| ManifestEntry::new(manifest_address + 8 + i * 64)))
     }
 
     fn read_register<T, Ctrl: DeviceControl + ?Sized>(
